@@ -190,6 +190,23 @@ def r45(F):
     return r
 
 
+def _closure_fed_by_vars(F, main, cf):
+    """is the closure handed to an adaptor of the std::env::vars iterator (or applied to what comes out of it)?"""
+    o = Origins(main)
+    for b, j, pl, rv, m in main.assigns():
+        if rv["k"] == "agg" and rv.get("adt") == "{closure}" and rv.get("closure") == cf.name and not pl["p"]:
+            cl = pl["l"]
+            for b2, t2 in main.calls():
+                locs = [op_local(a) for a in t2["args"]]
+                if any(l is not None and (l == cl or cl in util.feeders_of(main, l)) for l in locs):
+                    labs = set()
+                    for a in t2["args"]:
+                        labs |= set(o.at(a, b2))
+                    if "std::env::vars" in calls_in(labs):
+                        return True
+    return False
+
+
 def r46(F):
     r = RuleResult("R46", "single source of the environment",
                    "std::env::vars is read once, in main, and flows only into Environment::new_with_vars; the env tuple is built "
@@ -215,6 +232,26 @@ def r46(F):
     labs = o.at(nv[0][1]["args"][2], nv[0][0])
     ok = "std::env::vars" in calls_in(labs)
     r.inst("main:vars->Environment", main.where(nv[0][0]), ok, "env_vars map is filled from std::env::vars" if ok else "the map given to the Environment does not come from std::env::vars")
+    # ... all of it: no variable is dropped on the way by a test of its name or value (a filter for "identifier-like" names loses
+    # HTTP2_PORT; the property quantifies over every set of variables)
+    EXAMINERS = ("all", "any", "starts_with", "ends_with", "contains", "is_empty", "find", "matches", "is_char_boundary", "eq", "ne",
+                 "filter", "filter_map", "take_while", "skip_while", "retain", "strip_prefix", "strip_suffix")
+    exam = []
+    for fn_ in [main] + F.closures_of(main.name):
+        o_ = Origins(fn_)
+        for b, t in fn_.calls():
+            last = callee(t).split("::")[-1]
+            if (last in EXAMINERS or last.startswith("is_ascii") or last.startswith("is_alpha")) and t["args"]:
+                labs_ = set()
+                for a in t["args"]:
+                    labs_ |= set(o_.at(a, b))
+                if "std::env::vars" in calls_in(labs_) or (fn_ is not main and ("param", 2) in labs_ and
+                                                           any(callee(t2).startswith("std::env::vars") for b2, t2 in main.calls())
+                                                           and _closure_fed_by_vars(F, main, fn_)):
+                    exam.append((fn_.where(b), last))
+    r.inst("main:vars-unfiltered", exam[0][0] if exam else main.where(nv[0][0]), not exam,
+           "every variable of the process environment reaches the map (no test of a name or value on the way)" if not exam else
+           "the environment is examined (%s) on its way into the map: variables can be dropped by name or value" % ", ".join(sorted({x[1] for x in exam})))
     # env_vars: no writer outside the constructor
     acc = field_accesses(F, "ucglib::build::opcode::environment::Environment", "env_vars")
     muts = [a for a in acc if a[0] in ("assign", "mutref") and a[1] != "ucglib::build::opcode::environment::Environment::new_with_vars"]
